@@ -217,6 +217,37 @@ def run(prog, rep, tier):
     if nsm == 0:
         raise CheckerError("R15.4: no metadata() calls found in the path handling functions")
 
+    # ------------------------------------------------------------ R15.5 a file is typed by the name it resolves to, however it was reached
+    # An explicit path is canonicalized before its name decides the reader.  A link found by the walk must
+    # be typed the same way, or `dir/current.log -> ../store/data.gz` is read as text beneath the directory
+    # and as gzip when named.
+    R155 = rep.rule("R15.5", "every classification in process_path is fed the resolved (canonicalized) name")
+    pb_ = prog.body("s4lib::readers::filepreprocessor::process_path")
+    n155 = 0
+    for c in pb_.live_calls():
+        if not (c.d.endswith("::path_to_filetype") or c.d.endswith("::pathbuf_to_filetype")):
+            continue
+        n155 += 1
+        seen_, work_, canon_ = set(), [c.args[0]], False
+        while work_ and len(seen_) < 60:
+            cur_ = work_.pop()
+            for o_ in pb_.origins(cur_, through_calls=("::deref", "::as_path", "::as_ref", "::borrow")):
+                if o_[0] != "call" or o_[1] in seen_:
+                    continue
+                seen_.add(o_[1])
+                cc_ = [z for z in pb_.calls if z.bb == o_[1]][0]
+                nm_ = (cc_.o or cc_.d).split("::")[-1]
+                if nm_ in ("canonicalize", "read_link", "realpath"):
+                    canon_ = True
+                elif nm_ in ("unwrap_or_else", "unwrap_or", "unwrap", "to_path_buf", "clone", "into", "from", "expect", "unwrap_or_default", "map", "ok", "and_then", "to_owned", "as_path"):
+                    work_.extend(a for a in cc_.args if a[0] != "k")
+        rep.examined(R155, "%s|classify@%s" % (pb_.path, c.d.split("::")[-1]), sample={"call": c.d.split("::")[-1], "line": c.line, "name_is_resolved": canon_})
+        if not canon_:
+            rep.violation(R155, "%s|classify@%s|unresolved" % (pb_.path, c.d.split("::")[-1]), "process_path (line %d): %s() is given the path as found, not the name it resolves to, while the other branch classifies the canonicalized path; "
+                          "a symbolic link `current.log -> data.gz` is then read as text beneath a directory and as gzip when named on the command line" % (c.line, c.d.split("::")[-1]))
+    if n155 < 2:
+        raise CheckerError("R15.5: %d classification calls in process_path (expected the explicit and the walk branch)" % n155)
+
     return rep.finish(
         "Static necessary-condition check of path expansion: the iterated jwalk walker is built with follow_links(true) and sort(true) and only "
         "entries passing file_type().is_file() become sources; explicit files are classified with unparseable_are_text=true and walked files "
